@@ -60,6 +60,22 @@ def case(inp):
             m += sum((md.mass(mono) for md in pep.cterm), F(0))
         return m
 
+    # "a peptide of mass M": the library's own neutral peptide mass is the reference M (residues + water + every modification)
+    try:
+        libM = pt.mass(text, charge=0, monoisotopic=mono)
+    except Exception as e_:   # noqa
+        libM = None
+    if libM is None or abs(libM - M) > TOL:
+        bad.append(('M', 0, float(M), float(libM) if libM is not None else None))
+    # ... and the full-length b / y ions asked of the mass calculator are the ones fragment() reports
+    for ser, s_, e_ in (('b', 0, n), ('y', 0, n)):
+        v = got.get((ser, s_, e_, 1))
+        try:
+            w = pt.mass(text, ion_type=ser, charge=1, monoisotopic=mono)
+        except Exception:   # noqa
+            w = None
+        if v is None or w is None or abs(v - w) > TOL:
+            bad.append((ser + '-full-length-vs-mass()', n, float(v) if v is not None else None, float(w) if w is not None else None))
     for i in range(1, n + 1):
         b = got.get(('b', 0, i, 1))
         y = got.get(('y', i, n, 1)) if i < n else None
